@@ -201,6 +201,75 @@ def selectScan (name : String) (skipna : Bool) : Option (List XVal → XVal) :=
   | "cumprod", true => some xnanprod
   | _, _ => none
 
+/-! ### the cumulative functions as NumPy computes them: a running accumulation along the fibre
+(`selectScan` gives cell `k` as a function of the prefix; `Props/C08.cumsum_prefix_spec` proves the two agree) -/
+
+/-- running accumulation: `[op acc x0, op (op acc x0) x1, ...]` -/
+def cumFrom (op : XVal → XVal → XVal) (acc : XVal) : List XVal → List XVal
+  | [] => []
+  | x :: xs => op acc x :: cumFrom op (op acc x) xs
+
+/-- `np.cumsum` / `np.cumprod` of a 1-D fibre -/
+def xcumsum (l : List XVal) : List XVal := cumFrom add (fin 0) l
+def xcumprod (l : List XVal) : List XVal := cumFrom mul (fin 1) l
+/-- `np.nancumsum` / `np.nancumprod`: NaN replaced by 0 / 1, then the plain function -/
+def xnancumsum (l : List XVal) : List XVal := xcumsum (l.map fun x => if x.isNan then fin 0 else x)
+def xnancumprod (l : List XVal) : List XVal := xcumprod (l.map fun x => if x.isNan then fin 1 else x)
+
+/-- the whole-fibre cumulative function `_get_func(name, skipna)` selects -/
+def selectCum (name : String) (skipna : Bool) : Option (List XVal → List XVal) :=
+  match name, skipna with
+  | "cumsum", false => some xcumsum
+  | "cumsum", true => some xnancumsum
+  | "cumprod", false => some xcumprod
+  | "cumprod", true => some xnancumprod
+  | _, _ => none
+
+/-- which family of `_get_func` each concrete model function above mirrors (the vocabulary of `Gen.getFuncTable`, the
+table regenerated from the implementation on every run):
+  "plain"     : `np.<name>`                  (`xsum xprod xmean xvar xmin xmax xptp xall xany xargmin xargmax`, scans `xsum xprod`)
+  "mediannan" : `_median_with_nan`           (`xmedian`: NaN as soon as the fibre holds one)
+  "nanfunc"   : `np.nan<name>`               (`xnansum xnanprod xnanmean xnanvar xnanmin xnanmax xnanmedian xnanargmin xnanargmax`,
+                                              scans `xnansum xnanprod`)
+  "masked"    : `_MaskedArrayFunc(<name>)`   (`xmaptp xmaall xmaany`: NaN cells masked, fill value when nothing is left)
+`Props/C08.selectRed_covers_table` proves that this IS the family the implementation selects, row by row (harness/props/c08.py
+reads this definition to name the failing row when the proof breaks: keep one row per line). -/
+def familyOf (name : String) (skipna : Bool) : Option String :=
+  match name, skipna with
+  | "sum", false => some "plain"
+  | "sum", true => some "nanfunc"
+  | "prod", false => some "plain"
+  | "prod", true => some "nanfunc"
+  | "mean", false => some "plain"
+  | "mean", true => some "nanfunc"
+  | "var", false => some "plain"
+  | "var", true => some "nanfunc"
+  | "min", false => some "plain"
+  | "min", true => some "nanfunc"
+  | "max", false => some "plain"
+  | "max", true => some "nanfunc"
+  | "ptp", false => some "plain"
+  | "ptp", true => some "masked"
+  | "all", false => some "plain"
+  | "all", true => some "masked"
+  | "any", false => some "plain"
+  | "any", true => some "masked"
+  | "median", false => some "mediannan"
+  | "median", true => some "nanfunc"
+  | "argmin", false => some "plain"
+  | "argmin", true => some "nanfunc"
+  | "argmax", false => some "plain"
+  | "argmax", true => some "nanfunc"
+  | "cumsum", false => some "plain"
+  | "cumsum", true => some "nanfunc"
+  | "cumprod", false => some "plain"
+  | "cumprod", true => some "nanfunc"
+  | _, _ => none
+
+/-- the model has a function for `(name, skipna)`: a reduction (`selectRed`) or a cumulative function (`selectScan`) -/
+def hasModel (name : String) (skipna : Bool) : Bool :=
+  (selectRed name skipna).isSome || (selectScan name skipna).isSome
+
 /-- value of a fibre function where it raises nothing (NumPy raises for the whole call: see `reduceX`) -/
 def totalize (f : List XVal → Except Err XVal) (l : List XVal) : XVal :=
   match f l with
